@@ -6,32 +6,40 @@ package bluegreenstyle
 // Interface returning arbitrary workload info and an arbitrary batch context.
 
 import (
+	"fmt"
+
 	"github.com/openkruise/rollouts/api/v1beta1"
 	batchcontext "github.com/openkruise/rollouts/pkg/controller/batchrelease/context"
 	"github.com/openkruise/rollouts/pkg/util"
 	"github.com/openkruise/rollouts/pkg/verifrt"
 	corev1 "k8s.io/api/core/v1"
+	apierrors "k8s.io/apimachinery/pkg/api/errors"
 	metav1 "k8s.io/apimachinery/pkg/apis/meta/v1"
+	"k8s.io/apimachinery/pkg/runtime/schema"
 )
 
 type c11Ctl struct {
 	info     *util.WorkloadInfo
 	ctx      *batchcontext.BatchContext
 	upgrades int
+	buildErr error
+	acted    int // Initialize / UpgradeBatch / Finalize calls that reached the workload controller
 }
 
-func (c *c11Ctl) BuildController() (Interface, error)   { return c, nil }
+// the real controllers return themselves together with the error of the failed workload read
+func (c *c11Ctl) BuildController() (Interface, error)   { return c, c.buildErr }
 func (c *c11Ctl) GetWorkloadInfo() *util.WorkloadInfo   { return c.info }
 func (c *c11Ctl) ListOwnedPods() ([]*corev1.Pod, error) { return nil, nil }
 func (c *c11Ctl) CalculateBatchContext(release *v1beta1.BatchRelease) (*batchcontext.BatchContext, error) {
 	return c.ctx, nil
 }
-func (c *c11Ctl) Initialize(release *v1beta1.BatchRelease) error { return nil }
+func (c *c11Ctl) Initialize(release *v1beta1.BatchRelease) error { c.acted++; return nil }
 func (c *c11Ctl) UpgradeBatch(ctx *batchcontext.BatchContext) error {
+	c.acted++
 	c.upgrades++
 	return nil
 }
-func (c *c11Ctl) Finalize(release *v1beta1.BatchRelease) error { return nil }
+func (c *c11Ctl) Finalize(release *v1beta1.BatchRelease) error { c.acted++; return nil }
 
 type c11Patcher struct{}
 
@@ -88,4 +96,52 @@ func VerifC11_BlueGreenStylePlaneInitializeRecordsTheWorkload() {
 	}
 	verifrt.Assert(rc.newStatus.ObservedWorkloadReplicas == ctl.info.Replicas, "C11.bluegreenstyle.plane.initialize.observesTheWorkloadSize")
 	verifrt.Assert(rc.newStatus.StableRevision == "rev-1" && rc.newStatus.UpdateRevision == "rev-2", "C11.bluegreenstyle.plane.initialize.observesTheRevisions")
+}
+
+// VerifC06_BlueGreenStylePlaneFailedReadIsNeverSuccess: every plane operation starts by reading the workload.  When that read
+// fails with anything but NotFound (a timeout, a 5xx, a throttled request) the operation reports the error and does
+// not touch the workload controller — the executor then retries the same step.  In particular Finalize must not
+// report "done": the release would be marked Completed, lose its finalizer and disappear while the workload still
+// carries the control annotation and its pinned partition.  Only a workload that is really gone (NotFound) lets
+// Finalize finish with nothing to release.
+func VerifC06_BlueGreenStylePlaneFailedReadIsNeverSuccess() {
+	rc, ctl := c11Plane()
+	kind := verifrt.IntRange("read.outcome", 0, 2) // 0 ok, 1 NotFound, 2 another error
+	switch kind {
+	case 1:
+		ctl.buildErr = apierrors.NewNotFound(schema.GroupResource{Group: "apps", Resource: "workloads"}, "w")
+	case 2:
+		ctl.buildErr = fmt.Errorf("injected: the server is currently unable to handle the request")
+	}
+	var err error
+	op := verifrt.IntRange("op", 0, 3)
+	switch op {
+	case 0:
+		verifrt.Cover("initialize")
+		err = rc.Initialize()
+	case 1:
+		verifrt.Cover("upgrade")
+		err = rc.UpgradeBatch()
+	case 2:
+		verifrt.Cover("ensure")
+		err = rc.EnsureBatchPodsReadyAndLabeled()
+	case 3:
+		verifrt.Cover("finalize")
+		err = rc.Finalize()
+	}
+	if kind == 2 {
+		verifrt.Assert(err != nil, "C06.bluegreenstyle.plane.failedReadIsReported")
+		verifrt.Assert(ctl.acted == 0, "C06.bluegreenstyle.plane.failedReadTouchesNothing")
+	}
+	if kind == 1 {
+		verifrt.Assert(ctl.acted == 0, "C06.bluegreenstyle.plane.goneWorkloadIsNotTouched")
+		if op == 3 {
+			verifrt.Assert(err == nil, "C06.bluegreenstyle.plane.finalizeOfAGoneWorkloadIsDone")
+		} else {
+			verifrt.Assert(err != nil, "C06.bluegreenstyle.plane.goneWorkloadIsReported")
+		}
+	}
+	if kind == 0 && op == 3 {
+		verifrt.Assert(err == nil && ctl.acted == 1, "C06.bluegreenstyle.plane.finalizeReachesTheWorkload")
+	}
 }
